@@ -232,7 +232,7 @@ def _worker(args):
                         break
             fails.append(attributed or {"cid": cid, "case": c, "mode": mode, "lang": lang, "fields": bad,
                                         "observed": obs, "seen_in": None})
-        if c["ctx"] != "tplarg":
+        if True:
             ok, got, want = roundtrip(c)
             nround += 1
             if not ok:
